@@ -146,8 +146,8 @@ def x_fingerprint(tokens: list[str], res: tuple) -> str:
 def x_items(shard: dict) -> list[list[str]]:
     """Token lists of one obligation."""
     out = []
-    group = shard['group']
     for n in range(shard['nmin'], shard['nmax'] + 1):
+      for group in shard['group'].split('+'):
         for sh in shapes(n):
             hasF = 'F' in sh
             if group == 'base':
@@ -442,8 +442,12 @@ def run_p(shard: dict, timeout: float) -> dict:
             continue
         reached += 1
         small = x_reduce(E, lambda t: kind_of(chk(t, extra)), pool)
+        both = list(small)
+        if shard['tpl'] == 'nested':     # the inner body is reduced as well
+            extra = x_reduce(extra, lambda t: kind_of(chk(small, t)), ['s'])
+            both = both + ['+'] + list(extra)
         res = chk(small, extra)
-        feat = features(tuple('F' if t in FUNCS else t for t in small))
+        feat = features(tuple('F' if t in FUNCS else t for t in both))
         if res[0] == 'value':
             fp = 'P:value:%s:%s' % ('negative-argument' if any(res[2]) else 'nonnegative-argument', feat)
             vals = res[1]
